@@ -228,6 +228,8 @@ func checkC08(w *World, r *Report) {
 		}
 		r.Check(len(writers) == 0, "C08.R4", "Context.children:writers", "only SpawnChild and the stop function change a context's children", w.fnPos(sc), fmt.Sprintf("other writers: %v", writers))
 	}
+	checkContextFixed(w, r, "C08.R4")
+	checkCancelDeferred(w, r, "C08.R1")
 	checkPillLinearity(w, r, pr, "C08.R5")
 	// the safemap under the children map keeps its own lock discipline
 	sm := w.Named("safemap", "SafeMap")
